@@ -14,7 +14,7 @@ import (
 // operation on API paths, D4 shutdown signal atomic with Bind, D5 Bind/Unbind pairing, D6 no start after close.
 
 func init() {
-	registerEngine("D", []string{"D1", "D2", "D3", "D4", "D5", "D6", "D7"}, runEngineD)
+	registerEngine("D", []string{"D1", "D2", "D3", "D4", "D5", "D6", "D7", "D8", "D9"}, runEngineD)
 }
 
 // d3Exceptions: blocking channel operations on API paths that are safe for a stated reason (checked elsewhere).
@@ -83,6 +83,16 @@ func chanIdents(p *Prog, v ssa.Value) map[string]bool {
 				walk(e, d+1)
 			}
 		case *ssa.Call:
+			// an accessor of the repository that hands out a channel it holds (`func (l *lifecycle) closing() <-chan
+			// struct{} { return l.done }`): the channel is whatever the accessor returns
+			if sc := x.Call.StaticCallee(); sc != nil && p.InUniverse(sc) && sc.Blocks != nil && sc.Signature.Results().Len() == 1 {
+				instrsOf(sc, func(in ssa.Instruction) {
+					if r, ok := in.(*ssa.Return); ok && len(r.Results) == 1 {
+						walk(r.Results[0], d+1)
+					}
+				})
+				return
+			}
 			// ticker.Ch(), time.After: external sources
 			out["call:"+shortCallee(calleeName(&x.Call))] = true
 		}
@@ -363,11 +373,35 @@ func runEngineD(p *Prog, o *obls) {
 		if owner != nil {
 			closeFn = p.DeclaredMethod(owner, "Close")
 		}
+		if closeFn == nil && owner != nil {
+			// the WaitGroup lives in a helper object (a `lifecycle` the interceptor holds): the Close of every type
+			// holding such an object has to wait
+			var holders []*ssa.Function
+			for _, h := range p.holdersOf(owner) {
+				if f := p.DeclaredMethod(h, "Close"); f != nil {
+					holders = append(holders, f)
+				}
+			}
+			if len(holders) > 0 {
+				var fails []string
+				for _, f := range holders {
+					if !waitsOnAllPathsD(p, f, wgField, 3) {
+						fails = append(fails, funcKey(f))
+					}
+				}
+				if len(fails) > 0 {
+					r.bad = append(r.bad, site+fmt.Sprintf("%s does not reach %s.Wait() on every path", strings.Join(fails, ", "), wgField))
+				} else {
+					r.good = append(r.good, fmt.Sprintf("Add on %s dominates the go statement, the entry defers Done, Close of the %d type(s) holding the %s waits on every path", wgField, len(holders), owner.Obj().Name()))
+				}
+				continue
+			}
+		}
 		if closeFn == nil {
 			r.bad = append(r.bad, site+fmt.Sprintf("the type owning %s has no Close method that could wait for the goroutine", wgField))
 			continue
 		}
-		if !waitsOnAllPaths(closeFn, wgField) {
+		if !waitsOnAllPathsD(p, closeFn, wgField, 3) {
 			r.bad = append(r.bad, site+fmt.Sprintf("%s does not reach %s.Wait() on every path", funcKey(closeFn), wgField))
 			continue
 		}
@@ -498,6 +532,10 @@ func runEngineD(p *Prog, o *obls) {
 
 	// ---- D5 ----
 	d5Pairing(p, o)
+
+	// ---- D8 ----
+	d8ClosedTests(p, o, isLifecycle)
+	d9CloseMarks(p, o, isLifecycle, closes)
 }
 
 func calleeLabel(g *ssa.Go, callee *ssa.Function) string {
@@ -523,8 +561,53 @@ func calleeLabel(g *ssa.Go, callee *ssa.Function) string {
 
 // waitsOnAllPaths: the function defers W.Wait(), or calls it in a block that every return passes through.
 func waitsOnAllPaths(fn *ssa.Function, wgField string) bool {
+	return waitsOnAllPathsD(nil, fn, wgField, 0)
+}
+
+// holdersOf: the named struct types of the universe with a field of type T or *T.
+func (p *Prog) holdersOf(t *types.Named) []*types.Named {
+	var out []*types.Named
+	for sp := range p.Universe {
+		for _, m := range sp.Members {
+			tn, ok := m.(*ssa.Type)
+			if !ok {
+				continue
+			}
+			n, ok := tn.Type().(*types.Named)
+			if !ok {
+				continue
+			}
+			st, ok := n.Underlying().(*types.Struct)
+			if !ok {
+				continue
+			}
+			for i := 0; i < st.NumFields(); i++ {
+				if fn := namedOf(st.Field(i).Type()); fn != nil && fn.Obj() == t.Obj() {
+					out = append(out, n)
+					break
+				}
+			}
+		}
+	}
+	sort.Slice(out, func(i, j int) bool { return typeKey(out[i]) < typeKey(out[j]) })
+	return out
+}
+
+// waitsOnAllPathsD: every return of fn is preceded by Wait on the WaitGroup field — directly, deferred in the entry
+// block, or (depth > 0, p != nil) through a helper of the repository that itself waits on every path.
+func waitsOnAllPathsD(p *Prog, fn *ssa.Function, wgField string, depth int) bool {
 	ok := false
 	var calls []*ssa.Call
+	if fn == nil || fn.Blocks == nil {
+		return false
+	}
+	helperWaits := func(cc *ssa.CallCommon) bool {
+		if p == nil || depth <= 0 {
+			return false
+		}
+		sc := cc.StaticCallee()
+		return sc != nil && p.InUniverse(sc) && waitsOnAllPathsD(p, sc, wgField, depth-1)
+	}
 	instrsOf(fn, func(in ssa.Instruction) {
 		switch x := in.(type) {
 		case *ssa.Defer:
@@ -532,12 +615,16 @@ func waitsOnAllPaths(fn *ssa.Function, wgField string) bool {
 				if fa, isFA := x.Call.Args[0].(*ssa.FieldAddr); isFA && fieldKeyAddr(fa) == wgField && x.Block() == fn.Blocks[0] {
 					ok = true
 				}
+			} else if x.Block() == fn.Blocks[0] && helperWaits(&x.Call) {
+				ok = true
 			}
 		case *ssa.Call:
 			if isCallTo(&x.Call, "(*sync.WaitGroup).Wait") {
 				if fa, isFA := x.Call.Args[0].(*ssa.FieldAddr); isFA && fieldKeyAddr(fa) == wgField {
 					calls = append(calls, x)
 				}
+			} else if helperWaits(&x.Call) {
+				calls = append(calls, x)
 			}
 		}
 	})
